@@ -881,7 +881,7 @@ class MatchValueConditionValue(Contract):
     strings, numbers, timestamp parts, booleans alike); a value that cannot be compared with it does not match"""
     id = "C13.MatchValueCondition.match_value"
     target = "sigma.processing.conditions.values:MatchValueCondition.match_value"
-    props = ("C13",)
+    props = ("C13", "C12")
     cases = tuple((cls, out) for cls in ("SigmaString", "SigmaCasedString", "SigmaNumber", "SigmaTimestampPart", "SigmaBool", "SigmaNull") for out in ("verdict", "not-comparable"))
 
     def setup(self, E):
